@@ -390,10 +390,20 @@ class Check:
         self.seed = seed
         self.rng = random.Random(seed * 1000003 + sum(map(ord, prop)))
         self.t0 = time.time()
-        self.work = os.path.join(WORKROOT, prop)
         # the work directory holds generated cases files and scratch input
-        # files of ONE run: start from an empty one, drop it afterwards
+        # files of ONE run (several runs of one property may overlap): a
+        # private directory per process, removed afterwards; directories
+        # left by runs that no longer exist are swept
         import shutil
+        os.makedirs(WORKROOT, exist_ok=True)
+        for d in os.listdir(WORKROOT):
+            m = re.fullmatch(r'(C\d+)(?:_(\d+))?', d)
+            if not m:
+                continue
+            pid = m.group(2)
+            if pid is None or not os.path.exists(f'/proc/{pid}'):
+                shutil.rmtree(os.path.join(WORKROOT, d), ignore_errors=True)
+        self.work = os.path.join(WORKROOT, f"{prop}_{os.getpid()}")
         shutil.rmtree(self.work, ignore_errors=True)
         os.makedirs(self.work, exist_ok=True)
         os.makedirs(os.path.join(OUTROOT, 'replays'), exist_ok=True)
